@@ -8,7 +8,13 @@ CONSTANTS
   AllowRev = FALSE
   MinArgs = 1
   NFm = 3
+  NPf = 3
+  FrLen = FALSE
+  CLines = 3
+  MaxSites = 3
+  CKinds = {"comma", "type", "undef"}
   Family = "usage"
   MapOrder = "any"
+  CollectRel = "lex"
 INVARIANTS InPrecondition ExactInv SoundInv PassBoundInv OrdersOK RunAgrees DeterministicVerdict
 CHECK_DEADLOCK FALSE
